@@ -132,6 +132,7 @@ type Ctx struct {
 	fresh  int
 	Vars   []*Term // declared variables, in creation order
 	varIdx map[string]*Term
+	Concrete    map[string]uint64 // debugging: variables take these values (concrete re-execution of a model)
 	extractMemo map[[3]int32]*Term
 	selectMemo  map[[2]int32]*Term
 }
@@ -204,6 +205,18 @@ func (c *Ctx) Bool(b bool) *Term {
 func (c *Ctx) Const(w int, v uint64) *Term { return c.mk(OConst, BV(w), v&mask(w), "") }
 
 func (c *Ctx) Var(name string, s Sort) *Term {
+	if c.Concrete != nil && s.K != SArr {
+		if v, ok := c.Concrete[name]; ok {
+			if s.K == SBool {
+				return c.Bool(v != 0)
+			}
+			return c.Const(s.W, v)
+		}
+		if s.K == SBool {
+			return c.False
+		}
+		return c.Const(s.W, 0)
+	}
 	if t, ok := c.varIdx[name]; ok {
 		if t.Sort != s {
 			panic("Var redeclared with different sort: " + name)
